@@ -20,64 +20,64 @@ pub open spec fn ts_absorb_vec(d: nat, v: Seq<nat>) -> nat { poseidon_many(seq![
 pub open spec fn felts_view(s: Seq<Felt>) -> Seq<nat> { s.map_values(|f: Felt| f@) }
 
 impl Transcript {
-//@repo crates/transcript/src/transcript.rs fn Transcript::new props=C08
+//@repo crates/transcript/src/transcript.rs fn Transcript::new props=C01,C02,C08
     pub fn new(digest: Felt) -> (r: Self)
-        ensures r.digest@ == digest@, r.counter@ == 0, // [C08:new-state]
+        ensures r.digest@ == digest@, r.counter@ == 0, // [C01,C02,C08:new-state]
     {
         Self { digest, counter: Felt::from(0) }
     }
 //@end
-//@repo crates/transcript/src/transcript.rs fn Transcript::digest props=C08
+//@repo crates/transcript/src/transcript.rs fn Transcript::digest props=C01,C02,C08
     pub fn digest(&self) -> (r: &Felt)
         ensures r@ == self.digest@,
     {
         &self.digest
     }
 //@end
-//@repo crates/transcript/src/transcript.rs fn Transcript::random_felt_to_prover props=C08
+//@repo crates/transcript/src/transcript.rs fn Transcript::random_felt_to_prover props=C01,C02,C08
     pub fn random_felt_to_prover(&mut self) -> (r: Felt)
         ensures
-            r@ == ts_squeeze(old(self).digest@, old(self).counter@), // [C08:squeeze-value]
-            final(self).digest@ == old(self).digest@,                // [C08:squeeze-keeps-digest]
-            final(self).counter@ == fadd(old(self).counter@, 1),     // [C08:squeeze-bumps-counter]
+            r@ == ts_squeeze(old(self).digest@, old(self).counter@), // [C01,C02,C08:squeeze-value]
+            final(self).digest@ == old(self).digest@,                // [C01,C02,C08:squeeze-keeps-digest]
+            final(self).counter@ == fadd(old(self).counter@, 1),     // [C01,C02,C08:squeeze-bumps-counter]
     {
         let hash = poseidon_hash(self.digest, self.counter);
         self.counter += Felt::ONE;
         hash
     }
 //@end
-//@repo crates/transcript/src/transcript.rs fn Transcript::read_felt_from_prover props=C08
+//@repo crates/transcript/src/transcript.rs fn Transcript::read_felt_from_prover props=C01,C02,C08
     pub fn read_felt_from_prover(&mut self, val: &Felt)
         ensures
-            final(self).digest@ == ts_absorb1(old(self).digest@, val@), // [C08:absorb-felt]
-            final(self).counter@ == 0,                                  // [C08:absorb-resets-counter]
+            final(self).digest@ == ts_absorb1(old(self).digest@, val@), // [C01,C02,C08:absorb-felt]
+            final(self).counter@ == 0,                                  // [C01,C02,C08:absorb-resets-counter]
     {
         let hash = poseidon_hash_many([&(self.digest + Felt::ONE), val]);
         self.digest = hash;
         self.counter = Felt::ZERO;
     }
 //@end
-//@repo crates/transcript/src/transcript.rs fn Transcript::read_felt_vector_from_prover props=C08 rules=H_chain_digest
+//@repo crates/transcript/src/transcript.rs fn Transcript::read_felt_vector_from_prover props=C01,C02,C08 rules=H_chain_digest
     pub fn read_felt_vector_from_prover(&mut self, val: &[Felt])
         ensures
-            final(self).digest@ == ts_absorb_vec(old(self).digest@, felts_view(val@)), // [C08:absorb-vector]
-            final(self).counter@ == 0,                                                 // [C08:absorb-resets-counter]
+            final(self).digest@ == ts_absorb_vec(old(self).digest@, felts_view(val@)), // [C01,C02,C08:absorb-vector]
+            final(self).counter@ == 0,                                                 // [C01,C02,C08:absorb-resets-counter]
     {
         let hash = poseidon_hash_many(crate::hoist::chain_digest(&self.digest, val));
         self.digest = hash;
         self.counter = Felt::ZERO;
     }
 //@end
-//@repo crates/transcript/src/transcript.rs fn Transcript::read_uint64_from_prover props=C08
+//@repo crates/transcript/src/transcript.rs fn Transcript::read_uint64_from_prover props=C01,C02,C08
     pub fn read_uint64_from_prover(&mut self, val: u64)
         ensures
-            final(self).digest@ == ts_absorb1(old(self).digest@, val as nat), // [C08:absorb-u64]
+            final(self).digest@ == ts_absorb1(old(self).digest@, val as nat), // [C01,C02,C08:absorb-u64]
             final(self).counter@ == 0,
     {
         self.read_felt_from_prover(&Felt::from(val))
     }
 //@end
-//@repo crates/transcript/src/transcript.rs fn Transcript::random_felts_to_prover props=C08,C17
+//@repo crates/transcript/src/transcript.rs fn Transcript::random_felts_to_prover props=C01,C02,C08,C17
     pub fn random_felts_to_prover(&mut self, mut len: Felt) -> (res: Vec<Felt>)
         ensures
             res@.len() == len@, // [C08:squeeze-n-count]
